@@ -50,3 +50,15 @@ Theorem C08_regenerated_run_refines : forall col evs,
   g_collation_run col evs g_init = map (out_keymap forget_col) (snd (ideal_run KCollation [] (map fst evs))).
 Proof. exact gen_collation_run_refines. Qed.
 Print Assumptions C08_regenerated_run_refines.
+
+(* the collation tree's constructor and its option write the collator field only (Gen/Bindings.v, regenerated): the tree
+   starts empty whatever collator is configured *)
+From GoArt Require Import Proofs.BindingFacts.
+From GoArt Require Gen.Bindings.
+From Coq Require Import String.
+Local Open Scope string_scope.
+Theorem C08_collation_constructors_touch_the_collator_only :
+  forallb (fun c => if String.eqb (ctor_tree c) "collationSortedTree"
+                    then forallb (fun f => String.eqb (fst f) "cok") (ctor_fields c) else true) Bindings.constructors = true.
+Proof. exact collation_constructors_touch_the_collator_only. Qed.
+Print Assumptions C08_collation_constructors_touch_the_collator_only.
